@@ -67,6 +67,24 @@ check("C05",
       "TLA+ reference similarity solver as trace-validation oracle (TLC) + exhaustive TLC model check of the reference",
       "DESIGN.md §4 C05")
 
+check("C09",
+      "Dsl.tla holds the mini-language as data and its direct, unoptimised meaning as defining equations per cell (start "
+      "pins, hermitian/antihermitian lower blocks, summed lines, diagonal/offdiagonal conditions with the keep/eliminate "
+      "selections, `zero if flag else e` = e, products = left-associated Cauchy products, scope functions). The REAL "
+      "series_computation is run natively over GF(p^2) elements on (i) main and nonhermitian parsed from "
+      "pymablock/algorithms.py by the harness's own independent parser, 1-3 blocks, 1-2 parameters, with/without "
+      "selections, under the flag settings the library would choose, all-off, and partially off; (ii) generated "
+      "well-founded programs in the documented grammar (starts, markers, conditions, sums, /int incl. nested, .adj, "
+      "scope functions on expressions and on series, 2-3 factor products). Every element of every series and product "
+      "(outputs, deleted intermediates, products) is requested in a seeded random order, partly twice; TLC "
+      "(Trace_Dsl) checks every cell against its defining equation -- a well-founded program has exactly one table that "
+      "satisfies them all.",
+      "Trusted: TLC/SANY 1.8.0, Json module, the ~90-line parser dsl_parse.py, gf.py. The engine runs in the same field "
+      "TLC computes in (no abstraction). Linear-operator mode is not exercised; bounds: <=3 blocks of size <=3, total "
+      "order <=3.",
+      "TLA+ equational semantics of the DSL as trace-validation oracle (TLC) for the compiled engine run over GF(p^2)",
+      "DESIGN.md §4 C09")
+
 ENG = ("Trusted: TLC/SANY 1.8.0, the Json community module, the harness-side tracer (wraps the public BlockSeries.eval "
        "attribute and pop; cache hits are not observed), exactness of IEEE arithmetic on dyadic instances, reduction mod "
        "p=46199 for the value comparison. Bounds: 2-3 blocks, d<=5, total order<=3, schedules of <=6 requests (+ full "
